@@ -1,0 +1,27 @@
+//go:build verif
+
+package isaacstates
+
+import "github.com/spikeekips/mitum/base"
+
+// VerifNewMimic returns the mimic-ballot callback of a States that sits in
+// the given state (stub handlers, daemon not started) with the given ballot
+// broadcaster; every node is a sync source.
+func VerifNewMimic(
+	networkID base.NetworkID, local base.LocalNode, state StateType, broadcaster BallotBroadcaster,
+) (func(base.Ballot), error) {
+	args := NewStatesArgs()
+	args.AllowConsensus = true
+	args.BallotBroadcaster = broadcaster
+	args.IsInSyncSourcePoolFunc = func(base.Address) bool { return true }
+
+	st, err := NewStates(networkID, local, args)
+	if err != nil {
+		return nil, err
+	}
+
+	script := func(string, StateType, StateType, StateType) (string, StateType) { return "ok", StateEmpty }
+	st.cs = &verifHandler{states: st, script: script, st: state}
+
+	return st.mimicBallotFunc(), nil
+}
